@@ -609,6 +609,7 @@ class Dict(dict, base.Symbolic, pg_typing.CustomTyping):
           root_path=utils.KeyPath(name, self.sym_path),
       )
     if field and flags.is_type_check_enabled():
+      value = self._copy_if_placed_elsewhere(name, value)
       value = field.apply(
           value,
           allow_partial=allow_partial,
